@@ -26,12 +26,29 @@ pub enum AnyId {
 /// "types+function": the types collection of a module that already holds a function built with
 /// the builder (signature (i64, f32) -> ()): besides that signature the module then holds the
 /// internal, never emitted type of the function's entry sequence, which no public lookup may see
-pub const COLLS: [&str; 12] = ["funcs", "globals", "tables", "memories", "data", "elements", "imports", "exports", "customs", "locals", "types", "types+function"];
+/// "customs+names": custom sections that all carry the same name, some raw and some of a user-defined
+/// type, with `remove_raw(name)` as a third operation (it must take the first live *raw* one only)
+pub const COLLS: [&str; 13] = ["funcs", "globals", "tables", "memories", "data", "elements", "imports", "exports", "customs", "locals", "types", "types+function", "customs+names"];
+
+#[derive(Debug)]
+struct TypedSection {
+    data: Vec<u8>,
+}
+impl CustomSection for TypedSection {
+    fn name(&self) -> &str {
+        "shared"
+    }
+    fn data(&self, _: &IdsToIndices) -> std::borrow::Cow<'_, [u8]> {
+        std::borrow::Cow::Borrowed(&self.data)
+    }
+}
 
 #[derive(Clone, Debug, PartialEq, Eq)]
 pub enum IOp {
     Add(usize),
     Delete(usize),
+    /// customs+names only: `remove_raw("shared")`
+    RemoveRaw,
 }
 
 pub struct IdObj {
@@ -48,13 +65,15 @@ pub struct IdObj {
 pub struct IdSubject {
     pub coll: &'static str,
     pub with_function: bool,
+    pub shared_names: bool,
 }
 
 impl IdSubject {
     pub fn of(name: &str) -> IdSubject {
         let with_function = name == "types+function";
-        let coll = if with_function { "types" } else { COLLS.iter().find(|x| **x == name).copied().unwrap_or("globals") };
-        IdSubject { coll, with_function }
+        let shared_names = name == "customs+names";
+        let coll = if with_function { "types" } else if shared_names { "customs" } else { COLLS.iter().find(|x| **x == name).copied().unwrap_or("globals") };
+        IdSubject { coll, with_function, shared_names }
     }
 }
 
@@ -97,6 +116,18 @@ fn add(coll: &str, o: &mut IdObj, v: usize) -> (AnyId, String) {
         "exports" => {
             let id = m.exports.add(&format!("e{}_{}", s, v), o.anchor_func);
             (AnyId::X(id), format!("export e{}_{}", s, v))
+        }
+        "customs" if v >= 10 => {
+            // shared-name variant: 10 = user-defined type, 11 = raw
+            if v == 10 {
+                let data = vec![7u8, s as u8];
+                let id = m.customs.add(TypedSection { data: data.clone() });
+                (AnyId::C(id.into()), format!("custom shared {:?}", data))
+            } else {
+                let data = vec![1u8, s as u8];
+                let id = m.customs.add(RawCustomSection { name: "shared".into(), data: data.clone() });
+                (AnyId::C(id.into()), format!("custom shared {:?}", data))
+            }
         }
         "customs" => {
             let id = m.customs.add(RawCustomSection { name: format!("c{}_{}", s, v), data: vec![s as u8, v as u8] });
@@ -239,6 +270,7 @@ impl Subject for IdSubject {
     fn ops(&self, hist: &[IOp]) -> Vec<IOp> {
         // replay the reference to know which issued items are live
         let mut live: Vec<bool> = vec![];
+        let mut raw: Vec<bool> = vec![];
         let mut sig_of: Vec<usize> = vec![];
         if self.with_function {
             live.push(true);
@@ -257,10 +289,18 @@ impl Subject for IdSubject {
                     live.push(true);
                 }
                 IOp::Delete(k) => live[*k] = false,
+                IOp::RemoveRaw => {
+                    if let Some(k) = (0..live.len()).find(|k| live[*k] && raw[*k]) {
+                        live[k] = false;
+                    }
+                }
+            }
+            if let IOp::Add(v) = op {
+                raw.push(*v == 11);
             }
         }
         let nv = if self.coll == "types" || self.coll == "locals" { 3 } else { 2 };
-        let mut ops: Vec<IOp> = (0..nv).map(IOp::Add).collect();
+        let mut ops: Vec<IOp> = if self.shared_names { vec![IOp::Add(10), IOp::Add(11), IOp::RemoveRaw] } else { (0..nv).map(IOp::Add).collect() };
         if self.coll != "locals" {
             for (k, l) in live.iter().enumerate() {
                 if *l {
@@ -299,6 +339,26 @@ impl Subject for IdSubject {
                 let id = o.issued[*k].0;
                 delete(&mut o.m, id);
                 o.issued[*k].1 = None;
+            }
+            IOp::RemoveRaw => {
+                let got = o.m.customs.remove_raw("shared");
+                let victim = o.issued.iter().position(|(_, p)| p.as_deref().map(|p| p.starts_with("custom shared [1,")).unwrap_or(false));
+                match (victim, &got) {
+                    (Some(k), Some(sec)) => {
+                        let want = o.issued[k].1.clone().unwrap_or_default();
+                        let have = format!("custom shared {:?}", sec.data);
+                        if want != have {
+                            o.findings.push(Finding { sig: "remove-raw-wrong-section".into(), detail: format!("remove_raw returned {}, the first live raw section is {}", have, want) });
+                        }
+                        o.issued[k].1 = None;
+                    }
+                    (None, None) => {}
+                    (Some(k), None) => {
+                        o.findings.push(Finding { sig: "remove-raw-missed".into(), detail: format!("remove_raw returned None although the raw section {:?} is live", o.issued[k].1) });
+                        // the reference keeps it live: whatever was deleted instead shows up as a deleted live id
+                    }
+                    (None, Some(sec)) => o.findings.push(Finding { sig: "remove-raw-invented".into(), detail: format!("remove_raw returned {:?} although no raw section is live", sec.data) }),
+                }
             }
         }
         Ok(())
@@ -392,7 +452,7 @@ impl Subject for IdSubject {
 }
 
 fn hist_json(h: &[IOp]) -> serde_json::Value {
-    json!(h.iter().map(|o| match o { IOp::Add(v) => format!("add {}", v), IOp::Delete(k) => format!("delete #{}", k) }).collect::<Vec<_>>())
+    json!(h.iter().map(|o| match o { IOp::Add(v) => format!("add {}", v), IOp::Delete(k) => format!("delete #{}", k), IOp::RemoveRaw => "remove_raw".to_string() }).collect::<Vec<_>>())
 }
 fn hist_of(v: &serde_json::Value) -> Vec<IOp> {
     v.as_array()
@@ -400,7 +460,9 @@ fn hist_of(v: &serde_json::Value) -> Vec<IOp> {
             a.iter()
                 .filter_map(|x| {
                     let s = x.as_str()?;
-                    if let Some(v) = s.strip_prefix("add ") {
+                    if s == "remove_raw" {
+                        Some(IOp::RemoveRaw)
+                    } else if let Some(v) = s.strip_prefix("add ") {
                         Some(IOp::Add(v.parse().ok()?))
                     } else {
                         Some(IOp::Delete(s.strip_prefix("delete #")?.parse().ok()?))
